@@ -84,6 +84,10 @@ var malformed = []string{
 	"setoption", "setoption name", "setoption name Hash value x", "setoption name Hash value -1", "setoption name Nope value 3", "setoption name Depth value 2",
 	"debug on", "ponderhit", "register later", "uci", "stop stop", strings.Repeat("a", 70000), "go " + strings.Repeat("depth 1 ", 3000),
 	"\x00\x00", "quit\x00", "position startpos moves é2e4", "go infinite infinite", "ucinewgame now",
+	// moves the rules forbid only because of check: a pinned piece leaving its line, the king stepping next to
+	// the other king / onto an attacked square, castling through an attacked square
+	"position fen 4r1k1/8/8/8/8/8/4B3/4K3 w - - 0 1 moves e2d3", "position fen 4k3/8/8/8/8/8/8/R3K2r w Q - 0 1 moves e1c1",
+	"position fen 8/8/8/3k4/8/3K4/8/8 w - - 0 1 moves d3d4", "position fen 4k3/8/8/8/8/5r2/8/4K2R w K - 0 1 moves e1g1 e8e7", "position startpos moves e2e4 e7e5 e1e2 d8h4 e2e3 h4e1 e3e2",
 	// move tokens whose length in bytes and in characters differ
 	"position startpos moves e2é", "position startpos moves g1€", "position startpos moves e2e4 e7ü", "position startpos moves e2e4é", "position startpos moves éé",
 	"position startpos moves e2\u00e9\u00e9", "position startpos moves a2𝄞", "position fen é w - - 0 1", "go searchmoves e2é", "setoption name Hash value ４",
@@ -903,7 +907,7 @@ func init() {
 		Level:       "exploration",
 		Race:        true,
 		Technique:   "runtime protocol monitor under the race detector: gate evaluator parks the search so that a superseded search provably has not ended, hook-point delays widen the hand-over windows between command loop, forwarder, timers and search; hostile and malformed command scripts; real binaries driven over pipes; goroutine-dump based leak and hang diagnosis",
-		Rule:        "stale: go on P1 parked inside its k-th evaluation, then isready / stop / position P2 / ucinewgame / position P2 + go (P1, P2 have opposite sides to move): every isready answered while searching, a superseded search never answered, position+go answered exactly once with a move of P2; flood: go infinite on a finished game (mate / stalemate on the board) with a prompt or lagging reader, then isready / stop / isready; hostile: 8-37 random commands from {isready, position, go (6 forms), stop, ucinewgame, setoption, 54 malformed or unknown lines incl. over-long, non-UTF8, multi-byte move tokens, missing/overflowing arguments} with random pauses, then the driver must still answer position startpos / go depth 1 exactly once, then quit or end of input (also in the middle of a search): output closes; afterwards no goroutine remains inside morlock code; hook policies none / yield / random sleeps / long sleeps at hand-over points; every fifth in-process case with GOMAXPROCS(1); blackbox: the four binaries (race build) driven over pipes: uciok, readyok, one legal bestmove per go, exit 0 without panic or race report; distinct = distinct session transcripts; interleaving signatures = distinct rolling hashes of hook-point order",
+		Rule:        "stale: go on P1 parked inside its k-th evaluation, then isready / stop / position P2 / ucinewgame / position P2 + go (P1, P2 have opposite sides to move): every isready answered while searching, a superseded search never answered, position+go answered exactly once with a move of P2; flood: go infinite on a finished game (mate / stalemate on the board) with a prompt or lagging reader, then isready / stop / isready; hostile: 8-37 random commands from {isready, position, go (6 forms), stop, ucinewgame, setoption, 59 malformed or unknown lines incl. over-long, non-UTF8, multi-byte move tokens, moves illegal only because of check, missing/overflowing arguments} with random pauses, then the driver must still answer position startpos / go depth 1 exactly once, then quit or end of input (also in the middle of a search): output closes; afterwards no goroutine remains inside morlock code; hook policies none / yield / random sleeps / long sleeps at hand-over points; every fifth in-process case with GOMAXPROCS(1); blackbox: the four binaries (race build) driven over pipes: uciok, readyok, one legal bestmove per go, exit 0 without panic or race report; distinct = distinct session transcripts; interleaving signatures = distinct rolling hashes of hook-point order",
 		Assumptions: []string{"an unanswered isready is reported after a 60 s watchdog together with a goroutine dump (operations take milliseconds)", "a gate is never held across Halt: the iter.halt.enter hook releases it"},
 		Setup:       validateOracle,
 		Timeout:     minutes(15, 120),
